@@ -29,6 +29,7 @@ CHECKS = {
     "C11": {
         "runs": [
             R(LAB, "^TestC11Shutdown", {"checks": 60, "timeout": 900}, {"checks": 300, "shards": 16, "timeout": 3000}, race=True),
+            R(LAB, "^TestC11Reaped$", {"checks": 10, "timeout": 600}, {"checks": 60, "shards": 4, "timeout": 2400}),
         ],
     },
     "C09": {
